@@ -6,6 +6,7 @@ from gen import gsm_consts
 ID = "C19"
 LEVEL = "proof"
 LEAN_MODULES = ["OsmoVerif.Props.C19"]
+DRIVER_MODULES = ["GsmTime"]
 LEAN_MODEL_MODULES = ["OsmoVerif.Model.GsmTime", "OsmoVerif.Lemmas.GsmTime"]
 ASSUMPTIONS = [
     "theorems are about OsmoVerif.Model.GsmTime (hand model of gsm_fn2gsmtime, gsm_gsmtime2fn, ADD_MODULO, l1s_time_inc, fn2gsm_time with C widths)",
